@@ -238,7 +238,8 @@ def number (m : Mapper) : Nat → List J → Except Err (List (Item J))
     | .list (.atom "s" s :: _) => do
         let r' ← number m k r
         pure (.child (m.um s) false e :: r')
-    | .list (_ :: _) => .error .typeErr       -- unmap_qname of a non-string
+    | .list (.dict _ :: _) => .error .leak    -- unmap_qname(dict): `qname[0]` raises KeyError
+    | .list (_ :: _) => .error .typeErr       -- unmap_qname of a non-string: XMLSchemaTypeError
     | .elem .. => .error .leak                -- DataElement[0] is a DataElement, not a string
     | e => do
         let r' ← number m (k + 1) r
@@ -273,6 +274,7 @@ def enc (m : Mapper) (useNs : Bool) (f : Facts) (name : String) (obj : J) : Exce
         | _ => do
             let c ← number m 1 body
             pure ({ tag, text := none, attrs := attributes, xmlns }, c)
+    | .dict _ => .error .leak                 -- unmap_qname(dict): KeyError
     | _ => .error .typeErr
   | .elem .. => .error .leak
   | _ => .error .typeErr
